@@ -834,6 +834,7 @@ int main(int argc, char **argv) {
         const bool relational = e.name.find("dbm") != std::string::npos || e.name.find("oct") != std::string::npos ||
                                 e.name == "num_product" || e.name == "value_partitioning";
         for (int phase = 0; phase < 4; phase++) {
+          if (phase >= 2 && M_C16) continue; // the focus phases target transformer soundness, not value semantics
           if (phase == 2 && !(e.caps & CAP_BOOL)) continue;
           if (phase == 3 && !relational) continue;
           // quick tier: the two focus phases run on the domains that own the mechanism (flat boolean domains; zones and
@@ -866,6 +867,8 @@ int main(int argc, char **argv) {
         }
       } else if (mode == "lockstep") {
         ALPHA = build_alphabet(e.caps, true);
+        for (auto &h : ALPHA)
+          if (h.tier > 1) h.disabled = true; // the four-variable operations belong to their own phase (w is not fresh there)
         MAXD = depth_ext;
         FLAVOR = "direct"; Node d = initial_node();
         FLAVOR = "wrapped"; Node w = initial_node();
